@@ -174,7 +174,8 @@ def run(index, tier="quick", seed=0) -> Result:
         # the normal array is divided in place by its norm
         unit = any("unit" in getattr(e.f.get("rhs") or e.f.get("value"), "tags", ()) for e in stores) or \
             any(e.type == "augassign" and e.f.get("op") == "Div" and e.f.get("rhs") is not None and "norm" in e.rhs.tags for e in r["events"]) or \
-            any(isinstance(n, ast.AugAssign) and isinstance(n.op, ast.Div) and _mentions_norm(n.value, fn.node) for n in ast.walk(fn.node))
+            any(isinstance(n, ast.AugAssign) and isinstance(n.op, ast.Div) and _mentions_norm(n.value, fn.node) for n in ast.walk(fn.node)) or \
+            any(isinstance(n, ast.BinOp) and isinstance(n.op, ast.Div) and _mentions_norm(n.right, fn.node) for n in ast.walk(fn.node))
         if unit:
             res.ok("NRM-2", label + ":unit")
         else:
